@@ -97,6 +97,14 @@ def _tailify(stmts: List[ast.stmt], ret: str) -> List[ast.stmt]:
                 new.orelse = _tailify(st.orelse, ret)
                 out.append(new)
                 return out
+            # an arm that returns on some of its paths and falls through on others: the (short, straight-line) rest is continued in
+            # both arms -- `if c: [if d: return a]; X` + REST  ==  if c: [if d: return a]; X; REST  else: REST
+            if len(rest) <= 4 and not any(isinstance(n, (ast.For, ast.While, ast.Try, ast.With, ast.FunctionDef, ast.Lambda))
+                                          for r_ in rest for n in ast.walk(r_)):
+                new.body = _tailify(list(st.body) + copy.deepcopy(rest), ret)
+                new.orelse = _tailify(list(st.orelse) + rest, ret)
+                out.append(new)
+                return out
             raise _CannotInline("return in a branch that does not always exit")
         if isinstance(st, ast.Try) and not _has_return(st.finalbody) and (not rest or (
                 _always_exits(st.body + st.orelse) and all(_always_exits(h.body) for h in st.handlers))):
@@ -658,6 +666,18 @@ class _FoldDisplayIndex(ast.NodeTransformer):
         return node
 
 
+class _StoreCtx(ast.NodeVisitor):
+    """turn a comprehension target into a loop target (Store context throughout)"""
+    def visit_Name(self, node):
+        node.ctx = ast.Store()
+
+    def visit_Tuple(self, node):
+        node.ctx = ast.Store()
+        self.generic_visit(node)
+
+    visit_List = visit_Tuple
+
+
 class _PruneConstantIfExp(ast.NodeTransformer):
     """`A if True else B` is A (a mode constant substituted for a name)"""
 
@@ -1135,6 +1155,26 @@ class Normalizer:
 
     def _stmt(self, st, cls, depth) -> List[ast.stmt]:
         pre: List[ast.stmt] = []
+        # `x = next((E for v in IT if C), D)` is the search loop  for v in IT: if C: x = E; break / else: x = D
+        if isinstance(st, ast.Assign) and len(st.targets) == 1 and isinstance(st.targets[0], ast.Name) and isinstance(st.value, ast.Call) \
+                and isinstance(st.value.func, ast.Name) and st.value.func.id == "next" and len(st.value.args) == 2 and not st.value.keywords \
+                and isinstance(st.value.args[0], ast.GeneratorExp) and len(st.value.args[0].generators) == 1 \
+                and not st.value.args[0].generators[0].is_async \
+                and isinstance(st.value.args[1], (ast.Name, ast.Constant, ast.Attribute)):
+            ge = st.value.args[0]
+            g0 = ge.generators[0]
+            tgt = st.targets[0]
+            found = [ast.Assign(targets=[copy.deepcopy(tgt)], value=copy.deepcopy(ge.elt), lineno=st.lineno), ast.Break()]
+            inner = found
+            if g0.ifs:
+                test = g0.ifs[0] if len(g0.ifs) == 1 else ast.BoolOp(op=ast.And(), values=[copy.deepcopy(f_) for f_ in g0.ifs])
+                inner = [ast.If(test=copy.deepcopy(test), body=found, orelse=[])]
+            loop = ast.For(target=copy.deepcopy(g0.target), iter=copy.deepcopy(g0.iter), body=inner,
+                           orelse=[ast.Assign(targets=[copy.deepcopy(tgt)], value=copy.deepcopy(st.value.args[1]), lineno=st.lineno)], type_comment=None)
+            _StoreCtx().visit(loop.target)
+            ast.copy_location(loop, st)
+            ast.fix_missing_locations(loop)
+            return self._stmt(loop, cls, depth)
         if isinstance(st, (ast.Return, ast.Assign, ast.Expr, ast.AugAssign)) and st.value is not None:
             for n in ast.walk(st.value):
                 if isinstance(n, ast.Call) and isinstance(n.func, ast.Attribute) and n.func.attr == "join" and len(n.args) == 1 and not n.keywords \
